@@ -109,6 +109,13 @@ class extract_label:
             len(col.label) >= 1 and len(row.label) >= 1 and \
             same(row.index, row_label_to_index.spec(row.label)) and col.index == col_value(col.label) - 1
 
+    def abstract(label):
+        # the same decomposition as a function of the label (for callers)
+        if not is_cell_label(label):
+            return []
+        p = label_parts(label)
+        return [parsed_label(row_label_to_index.spec(p[3]), p[3], p[2]), parsed_label(col_value(p[1]) - 1, p[1], p[0])]
+
     def post_native(label, out):
         import re
         m = re.match(r'(\$?)([A-Za-z]+)(\$?)([1-9][0-9]*)\Z', label)
@@ -118,3 +125,13 @@ class extract_label:
         col = out.value[1]
         return to_label.spec(row, col) == label.upper() and row.index == int(m.group(4)) - 1 and \
             row.is_absolute == (m.group(3) == '$') and col.is_absolute == (m.group(1) == '$')
+
+
+@contract('hotxlfp.helper.cell:Cell.__init__', props=['C10'])
+class Cell_init:
+    args = dict(self=OBJECT('hotxlfp.helper.cell:Cell'), label=ANY, row=ANY, col=ANY)
+    cases = [dict(), dict(row=OMITTED, col=OMITTED)]
+    no_native = True
+
+    def attrs(self, label, row, col):
+        return {'label': label, 'row': None if row is OMITTED else row, 'col': None if col is OMITTED else col}
